@@ -35,7 +35,7 @@ Section Manager.
   (* manager.unit_of_work(session) *)
   Definition register (G : gstate) (s : sess) : gstate :=
     let smap' := if existsb (fun p => (snd p =? ss_conn s)%nat) (g_smap G)
-                 then g_smap G else g_smap G ++ [(ss_id s, ss_conn s)] in
+                 then g_smap G else aset (g_smap G) (ss_id s) (ss_conn s) in
     let uows' := match aget (g_uows G) (ss_conn s) with
                  | Some _ => g_uows G | None => aset (g_uows G) (ss_conn s) uow0 end in
     mkg uows' smap' (g_dbs G).
